@@ -148,12 +148,29 @@ def mintProbeLine (s : State) (t : Time) : String :=
   let infl := if rem.length < before then toString s.minterInfl else "-"
   s!"M max={s.mintMax} min={s.mintMin} rate={s.mintRate} infl={infl} remaining={remS}"
 
+/-- C12's monitor: the genesis exported from this state passes validation.  It is the Bool form of the
+`export validates` conjunct of `roundtrip_reachable` (Props/C12Reach) for the vpn and custommint sections
+and the swap parameters; the swap *records* are left out because of the listed finding F4 (a recorded
+swap of less than 100 fails `Swap.Validate`), which the round-trip check reports by itself. -/
+def exportValidB (s : State) : Bool :=
+  !exportPanics s && (validateVpn (exportVpn s)).isNone && (validateMint (exportMint s)).isNone
+    && (s.params.swap.validate).isNone && !hasDup ((exportSwap s).swaps.map (·.hash))
+
+def exportWhy (s : State) : String :=
+  if exportPanics s then "export_panics" else
+  match firstOf [validateVpn (exportVpn s), validateMint (exportMint s), s.params.swap.validate] with
+  | some m => m.replace " " "_" | none => "duplicate_swap"
+
+/-- All `V` lines: the state monitors plus `exportValid`. -/
+def allMonitorLines (s : State) (afterEnd : Bool := false) : List String :=
+  monitorLines s afterEnd ++ (if exportValidB s then [] else ["V exportValid " ++ exportWhy s])
+
 def respond (d : Drv) (line : String) (result : String) (events : List String) (withDump : Bool)
     (afterEnd : Bool := false) : Drv × List String :=
   let hdr := ["> " ++ line, "R " ++ result] ++ events
   if withDump then
     let cur := dump d.s
-    ({ d with prev := cur }, hdr ++ delta d.prev cur ++ monitorLines d.s afterEnd)
+    ({ d with prev := cur }, hdr ++ delta d.prev cur ++ allMonitorLines d.s afterEnd)
   else (d, hdr)
 
 def step (d : Drv) (line : String) : Drv × List String :=
@@ -198,6 +215,18 @@ def step (d : Drv) (line : String) : Drv × List String :=
           | some s' => respond { d with s := s' } line "accept" [] true
           | none => respond d line "reject:gov" [] true
         | none => respond d line "bad-op" [] false
+      | "jump" =>
+        -- `SetCount` of one module, forwards only: the state "as if n identifiers had been issued" (not an `Op` of the
+        -- model's histories; the invariants about counters are monotone in the counter)
+        let n := (fint f "n").toNat
+        match fget f "module" with
+        | "plan" => if d.s.planCount.getD 0 ≤ n then respond { d with s := { d.s with planCount := some n } } line "accept" [] true
+                    else respond d line "reject:jump" [] true
+        | "subscription" => if d.s.subCount.getD 0 ≤ n then respond { d with s := { d.s with subCount := some n } } line "accept" [] true
+                    else respond d line "reject:jump" [] true
+        | "session" => if d.s.sessCount.getD 0 ≤ n then respond { d with s := { d.s with sessCount := some n } } line "accept" [] true
+                    else respond d line "reject:jump" [] true
+        | _ => respond d line "bad-op" [] false
       | "mintprobe" => respond d line "accept" [mintProbeLine d.s (fint f "t")] false
       | "query" =>
         match rest with
@@ -322,11 +351,11 @@ structure ImplMon where
 
 def ImplMon.flush (m : ImplMon) : ImplMon × List String :=
   let kind := ((m.op.splitOn " ").headD "")
-  let stateful := ["start", "begin", "end", "tx", "gov", "reimport", "dump"].contains kind
+  let stateful := ["start", "begin", "end", "tx", "gov", "jump", "reimport", "dump"].contains kind
   if m.n = 0 ∨ !stateful ∨ m.halted ∨ m.res.startsWith "halt" then (m, []) else
   let modified : Modified := if kind = "end" then {} else m.modified
   let l := loadDump m.cur m.time modified
-  let fails := (monitorLines l.s (kind = "end")).map fun v => s!"I {m.n} {v.drop 2} | {m.op}"
+  let fails := (allMonitorLines l.s (kind = "end")).map fun v => s!"I {m.n} {v.drop 2} | {m.op}"
   let bad := (l.bad.take 3).map fun b => s!"I {m.n} wellFormed {b.replace " " "_"} | {m.op}"
   ({ m with modified := modified, evals := m.evals + 1 }, fails ++ bad)
 
